@@ -50,6 +50,19 @@ TABLE = {
          [('C19_ledger_is_what_records_hold', 'safe_history'), ('C19_bytes_bounded', 'reg_bytes_bound'), ('C19_count_bounded', 'reg_count_bound'), ('C19_after_reset_only_record', 'reset_any_oracle'),
           ('C19_any_history_from_start_bounded', 'C19_history_bound'), ('C19_retained_per_interface', 'C19_retained_per_interface')]),
 }
+# history-level restatements for the automata-side properties, whose step-level property files are hand-written
+# (first build round); these go into props/Properties_<id>h.v which Properties_<id>.v's check also builds
+TABLE.update({
+ 'C13h': ('Automata Sys AutomataHistory', 'C13, history level: the RepeatBand bounds hold after ANY history of receive-path operations, ticks and automata API calls',
+          [('C13_after_any_history', 'C13_history'), ('C13_choice_after_any_history', 'C13_history_choose'), ('C13_tick_after_any_history', 'C13_history_tick')]),
+ 'C14h': ('Automata Sys AutomataHistory', 'C14, history level: legal states after any history; the 30 s inactivity deadline fires at the next tick in every reachable state',
+          [('C14_every_reachable_state_legal', 'C14_history_state_valid'), ('C14_receive_path_from_start', 'C14_history_state_valid_rx'), ('C14_inactivity_after_any_history', 'C14_history_timeout'),
+           ('C14_invariant_of_every_history', 'history_inv')]),
+ 'C15h': ('Automata Sys AutomataHistory', 'C15, history level: no timestamp from the future; the life-cycle table applies in every reachable state; the tick leaves the session automaton alone',
+          [('C15_after_any_history', 'C15_history_invariant'), ('C15_flow_after_any_history', 'C15_history_flow'), ('C15_tick_after_any_history', 'C15_history_tick')]),
+ 'C16h': ('Automata Sys TableProofs AutomataHistory', 'C16, history level: the table invariant holds after any history through the frame flow and the tick, not only through the table API',
+          [('C16_flow_preserves', 'flow_table_inv'), ('C16_tick_preserves', 'tick_table_inv'), ('C16_after_any_history', 'C16_history_flow')]),
+})
 def main():
     only = sys.argv[1:]
     for pid, (imports, title, items) in TABLE.items():
